@@ -5,6 +5,11 @@
 //! S6 (deciding, delivery clause): publishers and subscribers on the v4 and the v5 listener of
 //! one broker (all four pairs), scripted raw-byte clients decoded with the client crate's
 //! codecs plus, in a part of the cases, real `rumqttc` v4 / v5 event loops on both sides.
+//! S6 (encode clause, what the router actually emits): per protocol version, client-id take-over of a live connection,
+//! router-initiated closes (with and without a DISCONNECT notification) and one session asking for every kind of
+//! reply; every connection's broker task must end without a panic, every byte a peer received must decode, a reply
+//! that is owed must not be replaced by the end of the connection. The shape classes the peers received are fed to
+//! the S1 sweep: a class seen on the wire is judged for both encoders.
 //! S1 (encode clause): every notification shape the router builds is converted with the
 //! production `Notification -> Packet` conversion and written with `V4.write` / `V5.write`
 //! under the panic monitor, then decoded with the client crate's codec.
@@ -119,6 +124,8 @@ pub struct Obs {
     pub late: Vec<SubObs>,
     pub publisher_ok: bool,
     pub notes: Vec<String>,
+    /// shape classes of everything the peers of this case decoded
+    pub classes: std::collections::BTreeSet<String>,
 }
 
 const COMPARED: &[u8] = &[
@@ -287,8 +294,10 @@ async fn run_case(b: &Broker, case: &Case) -> Result<Obs, S6Err> {
         p.publish(case.topic(leaf).as_bytes(), b"", 0, true, vec![]).await?;
     }
     for r in subs {
+        classes_of(&r, &mut obs.classes);
         finish_helper(r).await?;
     }
+    classes_of(&p, &mut obs.classes);
     finish_helper(p).await?;
     b.barrier().await?;
     Ok(obs)
@@ -353,6 +362,23 @@ fn lost_record(case: &Case, sub_v5: bool, who: &str, lost: &Option<TaskEnd>) -> 
 fn check_stream(case: &Case, who: &str, spec_v5: bool, spec: Option<&SubSpec>, so: &SubObs, expected: &[&Expect], stats: &mut Stats) -> Option<Record> {
     if !so.complete {
         return Some(lost_record(case, spec_v5, who, &so.lost));
+    }
+    if spec_v5 {
+        // a topic alias the subscriber did not allow (above its announced Topic Alias Maximum; none announced = no
+        // aliases) is a protocol error for a conforming receiver: the message is not delivered "with the same topic"
+        let max = spec.map(|s| s.alias_max).unwrap_or(0);
+        for r in &so.received {
+            stats.oracle("alias-within-announced-maximum");
+            let alias = r.props.iter().find(|(i, _)| *i == canon::P_TOPIC_ALIAS).and_then(|(_, v)| if let PVal::U16(a) = v { Some(*a) } else { None });
+            if let Some(a) = alias {
+                if a == 0 || a > max {
+                    return Some(
+                        base_record(case, "alias-beyond-maximum", spec_v5, format!("{who}: a PUBLISH on {} carries topic alias {a}; the subscriber announced Topic Alias Maximum {max}", String::from_utf8_lossy(&r.topic)))
+                            .fact("announced_maximum_zero", max == 0),
+                    );
+                }
+            }
+        }
     }
     for e in expected {
         stats.oracle("delivered-same-topic-and-payload");
@@ -500,7 +526,8 @@ fn gen_case(n: u64, rng: &mut Rng, trigger_v4: bool, trigger_alias: bool, mask_h
     for _ in 0..nsubs {
         let v5 = !v4_allowed || rng.chance(1, 2);
         let alias_max = if v5 && rng.chance(1, 3) { *rng.pick(&[1u16, 2, 10]) } else { 0 };
-        let wildcard = if alias_max > 0 && !trigger_alias { false } else { rng.chance(1, 2) };
+        let _ = trigger_alias; // (the wildcard-filter alias defect is repaired: wildcard filters and aliases mix freely)
+        let wildcard = rng.chance(1, 2);
         subs.push(SubSpec {
             v5,
             wildcard,
@@ -584,6 +611,9 @@ fn run_cases(ctx: &Ctx, rt: &Rt, cases: &[Case], stats: &mut Stats) {
         match rt.block_on(run_case(&broker, case)) {
             Ok(obs) => {
                 account(case, stats);
+                for cl in &obs.classes {
+                    stats.sig(format!("emitted:{cl}"));
+                }
                 if let Some(rec) = check(case, &obs, stats) {
                     match judge(ctx, stats, rec, || replay_doc(case, &obs)) {
                         Judged::Known(_) | Judged::Violation => {}
@@ -602,6 +632,389 @@ fn run_cases(ctx: &Ctx, rt: &Rt, cases: &[Case], stats: &mut Stats) {
             }
             Err(e) => {
                 stats.inconclusive.push(format!("S6 case {}: {e}", case.n));
+                broker = new_broker(rt);
+                on_broker = 0;
+            }
+        }
+        if stats.violations.len() >= 3 || stats.inconclusive.len() >= 5 {
+            break;
+        }
+    }
+}
+
+// ================================================================ S6: what the router emits towards a connection
+
+/// Packet kind names shared with the S1 sweep (`Shape.kind`)
+fn kind_name(ptype: u8) -> &'static str {
+    match ptype {
+        canon::CONNACK => "ConnAck",
+        canon::PUBLISH => "Publish",
+        canon::PUBACK => "PubAck",
+        canon::PUBREC => "PubRec",
+        canon::PUBREL => "PubRel",
+        canon::PUBCOMP => "PubComp",
+        canon::SUBACK => "SubAck",
+        canon::UNSUBACK => "UnsubAck",
+        canon::PINGRESP => "PingResp",
+        canon::DISCONNECT => "Disconnect",
+        _ => "Other",
+    }
+}
+
+/// Shape classes ("<protocol>:<kind>:<carries properties>") of everything this peer decoded
+fn classes_of(r: &Raw, into: &mut std::collections::BTreeSet<String>) {
+    let proto = if r.ver == Ver::V5 { "v5" } else { "v4" };
+    for c in r.seen.iter() {
+        into.insert(format!("{proto}:{}:{}", kind_name(c.ptype), !c.props.is_empty()));
+    }
+}
+
+#[derive(Clone, Copy, Debug, PartialEq, Eq, Serialize, Deserialize)]
+pub enum EmitKind {
+    /// a second connection with the same client id replaces the connection under observation
+    TakeOver,
+    /// the connection under observation sends something that makes the router close it:
+    /// 0-2 unsolicited PUBACK / PUBREC / PUBCOMP, 3 SUBSCRIBE to `$bad/x`, 4 PUBLISH on a non-UTF-8 topic,
+    /// 5 PUBREL for an unknown id, and (MQTT 5 only) 6 topic alias 0, 7 topic alias 65535, 8 empty topic with an
+    /// unknown alias, 9 PUBLISH carrying a subscription identifier, 10 SUBSCRIBE with subscription identifier 0
+    RouterClose(u8),
+    /// one session that asks for every kind of reply the router builds
+    Acks,
+}
+
+#[derive(Clone, Debug, PartialEq, Eq, Serialize, Deserialize)]
+pub struct EmitCase {
+    pub n: u64,
+    pub kind: EmitKind,
+    /// protocol of the connection under observation
+    pub v5: bool,
+    /// take-over: protocol of the replacing connection
+    pub other_v5: bool,
+    pub will: bool,
+    pub persistent: bool,
+    /// the connection under observation holds a subscription and an unacknowledged QoS 1 forward when it is ended
+    pub busy: bool,
+}
+
+#[derive(Clone, Debug, Default, Serialize)]
+pub struct EmitObs {
+    /// every connection of the case: (role, protocol, how its broker task ended, undecodable bytes, packets it decoded)
+    pub connections: Vec<(String, String, String, Option<String>, Vec<String>)>,
+    /// a request of the Acks session that got no reply because the connection ended instead
+    pub unanswered: Option<String>,
+    pub classes: std::collections::BTreeSet<String>,
+    pub notes: Vec<String>,
+}
+
+async fn observe_end(role: &str, mut r: Raw, obs: &mut EmitObs) -> Result<(), S6Err> {
+    r.close();
+    let end = r.join().await?;
+    classes_of(&r, &mut obs.classes);
+    let proto = if r.ver == Ver::V5 { "v5" } else { "v4" };
+    let end = match end {
+        TaskEnd::Returned => "returned".to_owned(),
+        TaskEnd::Panicked { location, message } => format!("panicked|{location}|{message}"),
+    };
+    obs.connections.push((role.to_owned(), proto.to_owned(), end, r.bad.clone(), r.seen.iter().map(|c| c.summary()).collect()));
+    Ok(())
+}
+
+async fn run_emit(b: &Broker, c: &EmitCase) -> Result<EmitObs, S6Err> {
+    let mut obs = EmitObs::default();
+    let n = c.n;
+    let ver = if c.v5 { Ver::V5 } else { Ver::V4 };
+    let v = s6::ver_num(ver);
+    let id = format!("c20e{n}");
+    let topic = format!("e{n}/t");
+    let mut connect = s6::connect(v, &id, !c.persistent, 60);
+    if c.will {
+        connect = s6::with_will(connect, &format!("e{n}/will"), b"w", 1, false, vec![]);
+    }
+    if c.v5 && c.persistent {
+        connect.props = vec![(canon::P_SESSION_EXPIRY, PVal::U32(300))];
+    }
+    let mut t = b.open(b.listener(ver));
+    if !t.connect(&connect).await?.accepted() {
+        return Err(S6Err::Harness("connection under observation was not accepted".into()));
+    }
+    let mut helper: Option<Raw> = None;
+    if c.busy && c.kind != EmitKind::Acks {
+        t.auto_ack = false;
+        if t.subscribe(&topic, 1, None).await?.is_none() {
+            return Err(S6Err::Harness("no SUBACK".into()));
+        }
+        let mut p = helper_client(b, Ver::V4, &format!("c20ep{n}")).await?;
+        p.publish(topic.as_bytes(), b"unacked", 1, false, vec![]).await?;
+        t.until_payload(b"unacked").await?;
+        helper = Some(p);
+    }
+    match c.kind {
+        EmitKind::TakeOver => {
+            let over = if c.other_v5 { Ver::V5 } else { Ver::V4 };
+            let mut t2 = b.open(b.listener(over));
+            let out = t2.connect(&s6::connect(s6::ver_num(over), &id, true, 60)).await?;
+            if !out.accepted() {
+                obs.notes.push(format!("replacing connection: {}", out.brief()));
+            }
+            // whatever the replaced connection is or is not sent, it must be decodable and its task must end normally
+            t.until_closed().await?;
+            observe_end("replaced", t, &mut obs).await?;
+            b.barrier().await?;
+            if out.accepted() {
+                t2.ping().await?;
+                t2.disconnect().await?;
+            }
+            observe_end("replacing", t2, &mut obs).await?;
+        }
+        EmitKind::RouterClose(k) => {
+            let mut bad = Canon::empty(v, canon::PUBLISH);
+            match k {
+                0 | 1 | 2 | 5 => {
+                    bad = Canon::empty(v, [canon::PUBACK, canon::PUBREC, canon::PUBCOMP, 0, 0, canon::PUBREL][k as usize]);
+                    bad.pkid = 4711;
+                }
+                3 => {
+                    bad = Canon::empty(v, canon::SUBSCRIBE);
+                    bad.pkid = 9;
+                    bad.filters = vec![("$bad/x".into(), 0)];
+                }
+                4 => {
+                    bad.topic = vec![b'e', 0xff, 0xfe, b'/', b'x'];
+                    bad.payload = b"x".to_vec();
+                }
+                6 | 7 => {
+                    bad.topic = topic.clone().into_bytes();
+                    bad.payload = b"x".to_vec();
+                    bad.props = vec![(canon::P_TOPIC_ALIAS, PVal::U16(if k == 6 { 0 } else { 65535 }))];
+                }
+                8 => {
+                    bad.payload = b"x".to_vec();
+                    bad.props = vec![(canon::P_TOPIC_ALIAS, PVal::U16(3))];
+                }
+                9 => {
+                    bad.topic = topic.clone().into_bytes();
+                    bad.payload = b"x".to_vec();
+                    bad.qos = 1;
+                    bad.pkid = 12;
+                    bad.props = vec![(canon::P_SUBSCRIPTION_ID, PVal::Var(5))];
+                }
+                _ => {
+                    bad = Canon::empty(v, canon::SUBSCRIBE);
+                    bad.pkid = 9;
+                    bad.filters = vec![(topic.clone(), 0)];
+                    bad.props = vec![(canon::P_SUBSCRIPTION_ID, PVal::Var(0))];
+                }
+            }
+            t.send(&bad).await?;
+            // closed by the router (or the packet was tolerated: then the ping is answered)
+            let alive = t.ping().await?;
+            if alive {
+                obs.notes.push("the broker tolerated the packet".into());
+                t.disconnect().await?;
+            }
+            observe_end("closed-by-router", t, &mut obs).await?;
+        }
+        EmitKind::Acks => {
+            t.auto_ack = true;
+            let mut step = |what: &str, ok: bool, obs: &mut EmitObs| {
+                if !ok && obs.unanswered.is_none() {
+                    obs.unanswered = Some(what.to_owned());
+                }
+                ok
+            };
+            let mut ok = step("SUBSCRIBE qos 2 -> SUBACK", t.subscribe(&topic, 2, if c.v5 { Some(7) } else { None }).await?.is_some(), &mut obs);
+            if ok {
+                // two filters in one SUBSCRIBE
+                let mut s = Canon::empty(v, canon::SUBSCRIBE);
+                s.pkid = t.pkid();
+                s.filters = vec![(format!("e{n}/a"), 0), (format!("e{n}/b/#"), 1)];
+                let pk = s.pkid;
+                t.send(&s).await?;
+                ok = step("SUBSCRIBE two filters -> SUBACK", t.until(|x| x.ptype == canon::SUBACK && x.pkid == pk).await?.is_some(), &mut obs);
+            }
+            // own publishes come back as forwards: QoS 1 and QoS 2 flows in both directions (PUBREL towards us)
+            for (q, what) in [(0u8, "PUBLISH qos 0"), (1, "PUBLISH qos 1 -> PUBACK"), (2, "PUBLISH qos 2 -> PUBREC, PUBREL -> PUBCOMP")] {
+                if ok {
+                    let payload = format!("own:{q}");
+                    ok = step(what, t.publish(topic.as_bytes(), payload.as_bytes(), q, false, vec![]).await?, &mut obs);
+                    if ok {
+                        ok = step("forward of the own publish", t.pubs.iter().any(|p| p.payload == payload.as_bytes()) || t.until_payload(payload.as_bytes()).await?, &mut obs);
+                    }
+                }
+            }
+            if ok {
+                // the PUBREL that answers our PUBREC for the QoS 2 forward (auto_ack sends PUBREC / PUBCOMP)
+                ok = step("PUBREC -> PUBREL", t.seen.iter().any(|x| x.ptype == canon::PUBREL) || t.until(|x| x.ptype == canon::PUBREL).await?.is_some(), &mut obs);
+            }
+            if ok {
+                let mut u = Canon::empty(v, canon::UNSUBSCRIBE);
+                u.pkid = t.pkid();
+                u.filters = vec![(format!("e{n}/a"), 0)];
+                let pk = u.pkid;
+                t.send(&u).await?;
+                ok = step("UNSUBSCRIBE -> UNSUBACK", t.until(|x| x.ptype == canon::UNSUBACK && x.pkid == pk).await?.is_some(), &mut obs);
+            }
+            if ok {
+                ok = step("PINGREQ -> PINGRESP", t.ping().await?, &mut obs);
+            }
+            if ok && c.persistent {
+                // leave a QoS 2 forward half-way (PUBREC sent, PUBCOMP withheld), drop, resume: CONNACK(session present) and the PUBREL again
+                t.auto_ack = false;
+                let mut p = helper_client(b, Ver::V4, &format!("c20ep{n}")).await?;
+                p.publish(topic.as_bytes(), b"half", 2, false, vec![]).await?;
+                helper = Some(p);
+                if let Some(f) = t.until(|x| x.ptype == canon::PUBLISH && x.payload == b"half").await? {
+                    let mut rec = Canon::empty(v, canon::PUBREC);
+                    rec.pkid = f.pkid;
+                    t.send(&rec).await?;
+                    t.until(|x| x.ptype == canon::PUBREL && x.pkid == f.pkid).await?;
+                }
+                observe_end("first-session", t, &mut obs).await?;
+                b.barrier().await?;
+                let mut t2 = b.open(b.listener(ver));
+                let out = t2.connect(&connect).await?;
+                step("CONNECT (resume) -> CONNACK", out.accepted(), &mut obs);
+                if out.accepted() {
+                    t2.auto_ack = true;
+                    step("PINGREQ -> PINGRESP after resume", t2.ping().await?, &mut obs);
+                    t2.disconnect().await?;
+                }
+                observe_end("resumed-session", t2, &mut obs).await?;
+            } else {
+                if ok {
+                    t.disconnect().await?;
+                }
+                observe_end("session", t, &mut obs).await?;
+            }
+            if ok && !c.persistent {
+                // empty client id: CONNACK with an assigned client identifier
+                let mut a = b.open(b.listener(ver));
+                let out = a.connect(&s6::connect(v, "", true, 60)).await?;
+                step("CONNECT with empty client id -> CONNACK", out.accepted(), &mut obs);
+                if out.accepted() {
+                    a.disconnect().await?;
+                }
+                observe_end("assigned-id", a, &mut obs).await?;
+            }
+        }
+    }
+    if let Some(mut p) = helper {
+        if p.is_open() {
+            p.publish(topic.as_bytes(), b"", 0, true, vec![]).await?;
+            p.disconnect().await?;
+        }
+        observe_end("helper", p, &mut obs).await?;
+    }
+    b.barrier().await?;
+    Ok(obs)
+}
+
+fn check_emit(c: &EmitCase, obs: &EmitObs, stats: &mut Stats) -> Option<Record> {
+    let kind = match c.kind {
+        EmitKind::TakeOver => "take-over".to_owned(),
+        EmitKind::RouterClose(k) => format!("router-close-{k}"),
+        EmitKind::Acks => "acks".to_owned(),
+    };
+    for (role, proto, end, bad, seen) in &obs.connections {
+        stats.oracle("emitted-encodable");
+        if let Some(rest) = end.strip_prefix("panicked|") {
+            let mut it = rest.splitn(2, '|');
+            let location = it.next().unwrap_or("?");
+            let message = it.next().unwrap_or("?");
+            return Some(
+                Record::new("C20", "encode-panic", format!("{kind}: the broker task of the {role} {proto} connection panicked at {location}: {message} (the peer had decoded: {seen:?})"))
+                    .fact("substrate", "S6")
+                    .fact("protocol", proto.clone())
+                    .fact("context", kind.clone())
+                    .fact("site", location.split(':').next().unwrap_or("?")),
+            );
+        }
+        if let Some(b) = bad {
+            return Some(
+                Record::new("C20", "emitted-undecodable", format!("{kind}: the {role} {proto} connection received bytes its codec rejects: {b}"))
+                    .fact("substrate", "S6")
+                    .fact("protocol", proto.clone())
+                    .fact("context", kind.clone()),
+            );
+        }
+    }
+    if let Some(what) = &obs.unanswered {
+        // the reply was owed and the connection ended instead: the link died writing it (or before)
+        return Some(
+            Record::new("C20", "link-ended-instead-of-reply", format!("{kind} ({}): {what}: no reply, the connection ended (connections: {:?})", if c.v5 { "v5" } else { "v4" }, obs.connections.iter().map(|x| (&x.0, &x.2)).collect::<Vec<_>>()))
+                .fact("substrate", "S6")
+                .fact("protocol", if c.v5 { "v5" } else { "v4" })
+                .fact("request", what.split(" ->").next().unwrap_or("").to_owned()),
+        );
+    }
+    None
+}
+
+fn emit_cases(counter: &mut u64, rng: &mut Rng, rounds: u64) -> Vec<EmitCase> {
+    let mut out = vec![];
+    for _ in 0..rounds {
+        for v5 in [false, true] {
+            let mut push = |kind: EmitKind, other_v5: bool, rng: &mut Rng, counter: &mut u64| {
+                *counter += 1;
+                out.push(EmitCase {
+                    n: *counter,
+                    kind,
+                    v5,
+                    other_v5,
+                    will: rng.chance(1, 2),
+                    persistent: rng.chance(1, 2),
+                    busy: rng.chance(1, 2),
+                });
+            };
+            for other in [false, true] {
+                push(EmitKind::TakeOver, other, rng, counter);
+            }
+            for k in 0..=(if v5 { 10u8 } else { 5 }) {
+                push(EmitKind::RouterClose(k), false, rng, counter);
+            }
+            push(EmitKind::Acks, false, rng, counter);
+            push(EmitKind::Acks, false, rng, counter);
+        }
+    }
+    out
+}
+
+fn run_emits(ctx: &Ctx, rt: &Rt, cases: &[EmitCase], stats: &mut Stats) {
+    let mut broker = new_broker(rt);
+    let mut on_broker = 0;
+    for c in cases {
+        if on_broker >= 400 {
+            broker = new_broker(rt);
+            on_broker = 0;
+        }
+        on_broker += 1;
+        match rt.block_on(run_emit(&broker, c)) {
+            Ok(obs) => {
+                stats.evaluations += 1;
+                stats.shapes.insert(fnv(format!("emit|{:?}|{}|{}|{}|{}|{}", c.kind, c.v5, c.other_v5, c.will, c.persistent, c.busy).as_bytes()));
+                let proto = if c.v5 { "v5" } else { "v4" };
+                match c.kind {
+                    EmitKind::TakeOver => stats.corner(&format!("take-over-of-{proto}")),
+                    EmitKind::RouterClose(_) => stats.corner(&format!("router-close-of-{proto}")),
+                    EmitKind::Acks => stats.corner(&format!("all-acks-towards-{proto}")),
+                }
+                for cl in &obs.classes {
+                    stats.sig(format!("emitted:{cl}"));
+                }
+                if let Some(rec) = check_emit(c, &obs, stats) {
+                    judge(ctx, stats, rec, || json!({"substrate": "S6-emit", "case": c, "observed": obs}));
+                    broker = new_broker(rt);
+                    on_broker = 0;
+                }
+            }
+            Err(S6Err::RouterGone(p)) => {
+                let rec = Record::new("C20", "router-panic", format!("router thread ended: {p:?}")).fact("site", p.as_ref().map(panic_site).unwrap_or_default());
+                judge(ctx, stats, rec, || json!({"substrate": "S6-emit", "case": c}));
+                broker = new_broker(rt);
+                on_broker = 0;
+            }
+            Err(e) => {
+                stats.inconclusive.push(format!("S6 emission case {} ({:?}): {e}", c.n, c.kind));
                 broker = new_broker(rt);
                 on_broker = 0;
             }
@@ -1291,8 +1704,13 @@ fn shapes(v5: bool, rng: &mut Rng) -> Vec<Shape> {
     out
 }
 
-fn encode_clause(ctx: &Ctx, seed: u64) -> Stats {
+/// `observed`: "<kind>:<carries properties>" classes that some S6 peer received. The routing core does not know a
+/// connection's protocol version, so a shape it was seen to emit towards one protocol can reach the other one too:
+/// such shapes are judged for both encoders even when no code path was known to build them when this was written.
+fn encode_clause(ctx: &Ctx, seed: u64, observed: &std::collections::BTreeSet<String>) -> Stats {
     let mut stats = Stats::default();
+    let mut swept: std::collections::BTreeSet<String> = Default::default();
+    let mut promoted: std::collections::BTreeSet<String> = Default::default();
     let mut rng = Rng::new(seed ^ 0x20e);
     let mut not_emittable: std::collections::BTreeMap<String, u64> = Default::default();
     for v5 in [false, true] {
@@ -1354,7 +1772,14 @@ fn encode_clause(ctx: &Ctx, seed: u64) -> Stats {
                     },
                 },
             };
-            if sh.emittable {
+            let class = format!("{}:{}", sh.kind, sh.props);
+            swept.insert(class.clone());
+            // (forwards with a topic alias / subscription identifier exist only towards MQTT 5 connections: per-connection state)
+            let seen_emitted = sh.kind != "Publish" && observed.contains(&class);
+            if seen_emitted && !sh.emittable {
+                promoted.insert(class.clone());
+            }
+            if sh.emittable || seen_emitted {
                 stats.oracle(&format!("encodable-{proto}"));
                 if let Some(rec) = fail {
                     match judge(ctx, &mut stats, rec, || json!({"substrate": "S1", "protocol": proto, "notification": sh.name})) {
@@ -1368,6 +1793,14 @@ fn encode_clause(ctx: &Ctx, seed: u64) -> Stats {
         }
     }
     stats.extra.insert("not_emittable_shapes_that_fail".into(), json!(not_emittable));
+    stats.extra.insert("emitted_shape_classes_observed".into(), json!(observed));
+    stats.extra.insert("shape_classes_judged_because_observed".into(), json!(promoted));
+    // a class the peers received that the sweep has no shape for cannot be judged: say so
+    for cl in observed {
+        if !swept.contains(cl) && !cl.starts_with("Other") {
+            stats.inconclusive.push(format!("the router emitted a notification shape the encode sweep does not contain: {cl}"));
+        }
+    }
     stats.exhaustive_scopes.push("S1: Forward with every subset of the 8 publish properties x QoS 0-2 (retain alternating), every acknowledgement the router builds, DISCONNECT with every reason code, for V4.write and V5.write".into());
     stats
 }
@@ -1378,6 +1811,7 @@ fn s6_part(ctx: &Ctx) -> Stats {
     let shards = if ctx.quick() { ctx.threads.clamp(1, 8) } else { ctx.threads.max(1) };
     let total = ctx.size(4_000, 60_000);
     let reals = ctx.size(160, 1_600);
+    let emit_rounds = ctx.size(24, 800);
     let trigger_pct = if ctx.quick() { 15 } else { 3 };
     sharded(ctx, shards, |shard, seed| {
         let mut stats = Stats::default();
@@ -1385,6 +1819,8 @@ fn s6_part(ctx: &Ctx) -> Stats {
         let rt = Rt::new(&format!("c20-{shard}"), 3);
         let mut counter: u64 = (shard as u64 + 1) * 10_000_000;
         let mine = total / shards as u64 + 1;
+        let emits = emit_cases(&mut counter, &mut rng, emit_rounds / shards as u64 + 1);
+        run_emits(ctx, &rt, &emits, &mut stats);
         let mut cases = vec![];
         for i in 0..mine {
             counter += 1;
@@ -1394,7 +1830,9 @@ fn s6_part(ctx: &Ctx) -> Stats {
             let mask_hint = (i as u32).wrapping_add(shard as u32 * 8) % 64;
             cases.push(gen_case(counter, &mut rng, trigger_v4, trigger_alias, mask_hint));
         }
-        run_cases(ctx, &rt, &cases, &mut stats);
+        if stats.violations.is_empty() {
+            run_cases(ctx, &rt, &cases, &mut stats);
+        }
         if stats.violations.is_empty() {
             let mut rc = vec![];
             for i in 0..(reals / shards as u64 + 1) {
@@ -1420,21 +1858,34 @@ fn s6_part(ctx: &Ctx) -> Stats {
 }
 
 fn run(ctx: &Ctx) -> Stats {
-    let mut stats = encode_clause(ctx, ctx.seed);
-    let s6 = s6_part(ctx);
-    stats.merge(s6);
+    // S6 first: the shape classes the peers actually received decide which shapes the S1 sweep judges
+    let mut stats = s6_part(ctx);
+    let observed: std::collections::BTreeSet<String> = stats
+        .signatures
+        .iter()
+        .filter_map(|s| s.strip_prefix("emitted:"))
+        .filter_map(|s| s.split_once(':').map(|(_proto, kind_props)| kind_props.to_owned()))
+        .collect();
+    let s1 = encode_clause(ctx, ctx.seed, &observed);
+    stats.merge(s1);
     stats
 }
 
 fn replay(ctx: &Ctx, doc: &Value) -> Stats {
     let mut stats = Stats::default();
     if doc["substrate"] == "S1" {
-        let s = encode_clause(ctx, ctx.seed);
+        let all: std::collections::BTreeSet<String> = ["Disconnect:true", "PubAck:true", "PubRec:true", "PubRel:true", "PubComp:true", "SubAck:true"].iter().map(|s| s.to_string()).collect();
+        let s = encode_clause(ctx, ctx.seed, &all);
         println!("replayed the whole encode clause (it is a fixed enumeration); looked for {}", doc["notification"]);
         return s;
     }
     let rt = Rt::new("c20-replay", 3);
-    if doc["substrate"] == "S6-real-clients" {
+    if doc["substrate"] == "S6-emit" {
+        match serde_json::from_value::<EmitCase>(doc["case"].clone()) {
+            Ok(c) => run_emits(ctx, &rt, &[c], &mut stats),
+            Err(e) => stats.inconclusive.push(format!("replay: cannot read case: {e}")),
+        }
+    } else if doc["substrate"] == "S6-real-clients" {
         match serde_json::from_value::<RealCase>(doc["case"].clone()) {
             Ok(c) => run_reals(ctx, &rt, &[c], &mut stats),
             Err(e) => stats.inconclusive.push(format!("replay: cannot read case: {e}")),
@@ -1455,11 +1906,12 @@ pub fn prop() -> Prop {
         id: "C20",
         meta: Meta {
             level: "exploration",
-            rule: "S6: seeded cases of one publisher (v4/v5) sending 1-6 messages (QoS 0-2, retained or not, payloads 0-20000 bytes, every subset of payload format / message expiry / content type / response topic / correlation data / user properties walked through by the first message of consecutive cases, publisher-side topic aliases) to 1-4 subscribers (v4/v5, exact or wildcard filter, QoS 0-2, subscription identifiers, Topic Alias Maximum), later subscribers for retained replays, a will with will properties; plus real rumqttc v4/v5 event loops on both sides for the four version pairs. Distinct = (publisher version, subscriber specs, per message (topic, QoS, retain, size class, property identifiers, alias use), later subscribers, will property identifiers). S1: one case per notification shape and protocol (fixed enumeration).",
+            rule: "S6: seeded cases of one publisher (v4/v5) sending 1-6 messages (QoS 0-2, retained or not, payloads 0-20000 bytes, every subset of payload format / message expiry / content type / response topic / correlation data / user properties walked through by the first message of consecutive cases, publisher-side topic aliases) to 1-4 subscribers (v4/v5, exact or wildcard filter, QoS 0-2, subscription identifiers, Topic Alias Maximum), later subscribers for retained replays, a will with will properties; plus real rumqttc v4/v5 event loops on both sides for the four version pairs. Distinct = (publisher version, subscriber specs, per message (topic, QoS, retain, size class, property identifiers, alias use), later subscribers, will property identifiers). S6 emission cases: (kind: take-over / router close 0-10 / all acks, protocol of the observed connection, protocol of the replacing connection, will, persistent, busy). S1: one case per notification shape and protocol (fixed enumeration); shapes of a (kind, with/without properties) class that an S6 peer received are judged even when they were listed as not emittable.",
             assumptions: &[
                 "S6 connections are in-memory duplex pipes entered through Server::verif_accept; everything behind them is production code",
                 "topic alias and subscription identifier are the broker's to rewrite and are not compared; the message expiry interval may be smaller than sent",
-                "notification shapes no router code path builds (acks with properties, DISCONNECT with properties) are executed and listed under coverage.not_emittable_shapes_that_fail, not judged",
+                "notification shapes no router code path builds (acks with properties, DISCONNECT with properties) are executed and listed under coverage.not_emittable_shapes_that_fail; they are judged as soon as an S6 peer receives a packet of that class (coverage.shape_classes_judged_because_observed); the routing core does not know a connection's protocol version, so a class seen towards one version is judged for both encoders",
+                "an encode error (as opposed to a panic) inside a connection task is only visible from outside where a reply is owed: there it is reported as link-ended-instead-of-reply",
                 "MQTT 5 properties towards 3.1.1 subscribers are generated in ~15 % of the cases only (known finding KF-C20-V4PROPS)",
             ],
             floors: &[
@@ -1475,6 +1927,12 @@ pub fn prop() -> Prop {
                 ("encodable-v5", 800),
                 ("real-clients:v4->v5", 2),
                 ("real-clients:v5->v4", 2),
+                ("take-over-of-v4", 8),
+                ("take-over-of-v5", 8),
+                ("router-close-of-v4", 20),
+                ("router-close-of-v5", 40),
+                ("all-acks-towards-v4", 8),
+                ("all-acks-towards-v5", 8),
             ],
         },
         run,
